@@ -572,7 +572,10 @@ class StreamReader:
 
         # An empty buffer always resumes reading: with limit=0 the low-water
         # mark is 0 and "size < low water" alone would never hold.
-        if (self._size < self._low_water or not self._buffer) and (
+        # Once EOF has been fed the message is complete (feed_eof() resumed the
+        # protocol itself) and the connection may already serve another request:
+        # draining the rest of the buffer must not touch it any more.
+        if not self._eof and (self._size < self._low_water or not self._buffer) and (
             self._http_chunk_splits is None
             or len(self._http_chunk_splits) < self._low_water_chunks
         ):
